@@ -170,7 +170,8 @@ with parse_op (f : nat) (d : N) (prec : Z) (lhs : ast) (ts : list token) {struct
     if MAX_DEPTH <? d + 1 then Err else parse_op_loop f' (d + 1) prec lhs ts
   end
 
-(* one iteration of the loop of parse_op_inner; d is the running Parser.depth *)
+(* one iteration of the loop of parse_op_inner; d is Parser.depth (the loop itself does not recurse: `built` bounds the
+   height of the tree it grows) *)
 with parse_op_loop (f : nat) (d : N) (prec : Z) (lhs : ast) (ts : list token) {struct f} : R :=
   match f with O => Fuel | S f' =>
     match ts with
@@ -195,11 +196,10 @@ with parse_op_loop (f : nat) (d : N) (prec : Z) (lhs : ast) (ts : list token) {s
           parse_primary f' d ts2 >>= fun '(rhs, ts3) =>
           (if cur_is_not ts3 then next_prec ts3 else Ok (cur_prec ts3)) >>= fun '(cur_l_bp, _) =>
           (if (r_bp <? cur_l_bp)%Z then parse_op f' d r_bp rhs ts3 else Ok (rhs, ts3)) >>= fun '(rhs', ts4) =>
-          if MAX_DEPTH <? d + 1 then Err else
           let node := ABinary op lhs rhs' in
           let node' := if isnot then AUnary s_not node else node in
           built node' ts4 >>= fun '(node'', ts5) =>
-          parse_op_loop f' (d + 1) prec node'' ts5
+          parse_op_loop f' d prec node'' ts5
     | _ => Ok (lhs, ts)
     end
   end.
